@@ -6,7 +6,12 @@
 //	           distinct and drawn from {x, y, xy, yx, z}; plus the degenerate tree whose root is a file;
 //	           rooted at <base>/r00t where <base> contains none of the characters x, y, z
 //	patterns   every set of 0..K of the anchor-free expressions {x, y, xy, x.*, [xy], z|x, x.y}; and, for the
-//	           rejection clause, lists that contain one of the invalid expressions {"(", "["}
+//	           rejection clause, lists that contain one of the invalid expressions {"(", "["} at every position
+//	bound      quick:    N=4, K=2 (10 312 trees x 29 lists); invalid lists on trees of <= 3 entries
+//	           thorough: N=4, K=3 (64 lists); every tree of exactly 5 entries with K=1 (85 032 trees x 8 lists);
+//	                     over the names {x, xy, z} only: exactly 5 entries with K=3 and exactly 6 entries with K=1
+//	           (large trees go with few patterns and many patterns with smaller trees: every case executes the real
+//	           code, which compiles three expressions per pattern per call; N=6 x K=3 over five names is 10^8 cases)
 //	operations Walk, Ls, LsRecursive (with / without directories), ListDirTree, SubDirectories,
 //	           Copy (destination missing), Copy (destination exists), Zip, Remove, CleanDir  — all applied to the root
 //	backends   filesystem.NewFs(InMemoryFS) and filesystem.NewFs(StandardFS) under /dev/shm/verif-c08-*
